@@ -189,6 +189,15 @@ var hC10Table = []struct {
 	// while the value is not (a long mantissa compensates)
 	{types.FloatKindDouble, "0.0000000000000000000000000000000000000000000000000000000000000000000000000000000000000000000001e+401", false, "0x7FAC7B1F3CAC7433", 0},
 	{types.FloatKindDouble, "10000000000000000000000000000000000000000000000000000000000000000000000000000000000000000000000000000.0e-401", false, "0x17124E63593F5E1", 0},
+	// infinities and the default NaNs of either sign for the extended kinds
+	{types.FloatKindX86_FP80, "0xKFFFF8000000000000000", true, "", 2}, {types.FloatKindFP128, "0xL00000000000000007FFF000000000000", true, "", 2},
+	{types.FloatKindFP128, "0xL0000000000000000FFFF000000000000", true, "", 2},
+	{types.FloatKindPPC_FP128, "0xM7FF00000000000000000000000000000", true, "", 2}, {types.FloatKindPPC_FP128, "0xMFFF00000000000000000000000000000", true, "", 2},
+	// (the NaN payload is not kept - known finding C10.nan-payload -, so only the
+	// classification and the sign are stated for the NaN rows)
+	{types.FloatKindPPC_FP128, "0xM7FF80000000000000000000000000000", false, "", 1}, {types.FloatKindPPC_FP128, "0xMFFF80000000000000000000000000000", false, "", 1},
+	// a decimal exponent far beyond the range (LLVM reads infinity)
+	{types.FloatKindDouble, "1.0e+9999999999", false, "0x7FF0000000000000", 0},
 	{types.FloatKindDouble, "0.0", false, "", 0}, {types.FloatKindDouble, "-0.0", false, "", 0}, {types.FloatKindDouble, "1.0", false, "", 0},
 	{types.FloatKindDouble, "1000000.0", false, "", 0}, {types.FloatKindDouble, "1.0e22", false, "", 0}, {types.FloatKindDouble, "5.0e7", false, "", 0},
 	{types.FloatKindDouble, "0.1", false, "", 0}, {types.FloatKindDouble, "-2.5e-3", false, "", 0}, {types.FloatKindDouble, "1.5e300", false, "", 0},
@@ -201,6 +210,17 @@ var hC10Table = []struct {
 	{types.FloatKindFP128, "0xL00000000000000003FFF000000000000", true, "", 0}, {types.FloatKindFP128, "0xL0000000000000000BFFF000000000000", true, "", 0},
 	{types.FloatKindFP128, "0xL00000000000000007FFF800000000000", true, "", 0}, {types.FloatKindFP128, "0xL0000000000000000FFFF800000000000", true, "", 0},
 	{types.FloatKindPPC_FP128, "0xM3FF00000000000000000000000000000", true, "", 0}, {types.FloatKindPPC_FP128, "0xMBFF00000000000000000000000000000", true, "", 0},
+}
+
+// hC10Negative: the sign the literal denotes (true = negative), for the rows
+// where it is stated (infinities and NaNs of the extended kinds).
+var hC10Negative = map[string]bool{
+	"0xKFFFF8000000000000000": true, "0xK7FFF8000000000000000": false,
+	"0xL00000000000000007FFF000000000000": false, "0xL0000000000000000FFFF000000000000": true,
+	"0xL00000000000000007FFF800000000000": false, "0xL0000000000000000FFFF800000000000": true,
+	"0xM7FF00000000000000000000000000000": false, "0xMFFF00000000000000000000000000000": true,
+	"0xM7FF80000000000000000000000000000": false, "0xMFFF80000000000000000000000000000": true,
+	"0xH7C00": false, "0xHFC00": true, "0xH7E00": false, "0xHFE00": true,
 }
 
 // VfC10_Table
@@ -227,6 +247,9 @@ func VfC10_Table() {
 	}
 	if row.want != "" {
 		vfAssert("C10.table.expected-literal", out == row.want)
+	}
+	if neg, stated := hC10Negative[row.lit]; stated {
+		vfAssert("C10.table.sign-is-the-literal's", c.X.Signbit() == neg)
 	}
 	if row.nan != 0 {
 		vfAssert("C10.table.nan-classification-as-llvm-reads-it", c.NaN == (row.nan == 1))
